@@ -782,6 +782,13 @@ fn main() {
             special::find(16, bits);
             0
         }
+        "findks" => {
+            let what: &'static str = match a.pos.get(0).map(|s| s.as_str()) { Some("key") => "key", Some("exporter_secret") => "exporter_secret", _ => "base_nonce" };
+            let trail = a.pos.get(1).map(|s| s == "trail").unwrap_or(false);
+            let z = a.pos.get(2).and_then(|x| x.parse().ok()).unwrap_or(3usize);
+            special::find_ks(a.pos.get(3).and_then(|x| x.parse().ok()).unwrap_or(16), z, what, trail);
+            0
+        }
         "findnonce" => {
             let z = a.pos.get(0).and_then(|x| x.parse().ok()).unwrap_or(3usize);
             let th = a.pos.get(1).and_then(|x| x.parse().ok()).unwrap_or(16usize);
